@@ -8,8 +8,9 @@ package main
 //     <k>     the stream ends after k bytes (k = -1: after the whole stream)
 //     <sched> sizes of the successive reads, `.`-separated (`-` = as much as asked)
 //     <pkt>   d<n>: a packet whose body is n DONE packages (count = running number), on channel 0, EOM set
-//             on the last packet of the list; h: a header-only packet (PROTACK)
-// Answer: `pk:<i>,<i>…` (running numbers of the DONE packages delivered, `H` for a header-only package,
+//             on the last packet of the list; h: a header-only packet (PROTACK); f: a packet whose body is one
+//             ROWFMT package (its last read has length zero)
+// Answer: `pk:<i>,<i>…` (running numbers of the DONE packages delivered, `H` for a header-only package, `R` for the ROWFMT,
 // `F` for the synthetic final DONE) then ` end=<connErr|hangs>`.
 
 import (
@@ -41,11 +42,15 @@ func rdStream(spec string) ([]byte, []int) {
 			bounds = append(bounds, len(stream))
 			continue
 		}
-		cnt, _ := strconv.Atoi(strings.TrimPrefix(p, "d"))
 		var body []byte
-		for j := 0; j < cnt; j++ {
-			body = append(body, wDone(0xFD, 1, 0, n)...)
-			n++
+		if p == "f" {
+			body = rdRowFmt()
+		} else {
+			cnt, _ := strconv.Atoi(strings.TrimPrefix(p, "d"))
+			for j := 0; j < cnt; j++ {
+				body = append(body, wDone(0xFD, 1, 0, n)...)
+				n++
+			}
 		}
 		l := len(body) + 8
 		stream = append(stream, 4, st, byte(l>>8), byte(l), 0, 0, 0, 0)
@@ -53,6 +58,15 @@ func rdStream(spec string) ([]byte, []int) {
 		bounds = append(bounds, len(stream))
 	}
 	return stream, bounds
+}
+
+// rdRowFmt: a ROWFMT with one INT4 column — a package whose last read has length zero (the column's empty
+// locale): it is complete with the last byte of its packet, no byte of the next packet is needed for it
+func rdRowFmt() []byte {
+	col := append([]byte{1, 'c', 0}, le32(0)...)
+	col = append(col, 0x38, 0)
+	body := append(le16(1), col...)
+	return append(append([]byte{0xEE}, le16(len(body))...), body...)
 }
 
 func rdImpl(line string) string {
@@ -112,6 +126,8 @@ loop:
 				}
 			case *tds.HeaderOnlyPackage:
 				got = append(got, "H")
+			case *tds.RowFmtPackage:
+				got = append(got, "R")
 			default:
 				got = append(got, "?")
 			}
@@ -165,12 +181,18 @@ func rdExpect(line string) string {
 			}
 			continue
 		}
-		cnt, _ := strconv.Atoi(strings.TrimPrefix(p, "d"))
-		for j := 0; j < cnt; j++ {
+		if p == "f" {
 			if complete {
-				got = append(got, strconv.Itoa(n))
+				got = append(got, "R")
 			}
-			n++
+		} else {
+			cnt, _ := strconv.Atoi(strings.TrimPrefix(p, "d"))
+			for j := 0; j < cnt; j++ {
+				if complete {
+					got = append(got, strconv.Itoa(n))
+				}
+				n++
+			}
 		}
 		if complete && i == len(bounds)-1 {
 			got = append(got, "F")
@@ -190,7 +212,7 @@ func rdExpect(line string) string {
 func init() {
 	gen := func(prop string) func(tier string, rng *rand.Rand, emit func(Case)) {
 		return func(tier string, rng *rand.Rand, emit func(Case)) {
-			specs := []string{"d1", "d1,d1", "d2,h,d1", "h,d3", "d1,d2,d1", "d5", "h"}
+			specs := []string{"d1", "d1,d1", "d2,h,d1", "h,d3", "d1,d2,d1", "d5", "h", "f,d1", "d1,f,d2", "f"}
 			scheds := []string{"-", "1.1.1.1.1.1.1.1.1.1.1.1.1.1.1.1.1.1.1.1.1.1.1.1.1.1.1.1.1.1.1.1.1.1.1.1.1.1.1.1", "3.5.2.7.1.9.4", "7.1.8.8.2", "8.9.8.9", "20.3"}
 			if prop == "C02" {
 				// read partitions of the complete stream, incl. cuts inside the 8-byte header
